@@ -286,7 +286,7 @@ class CodeGenerator(nunavut._generators.AbstractGenerator):
     ) -> None:
         newline_pattern = re.compile(r"\n|\r\n", flags=re.MULTILINE)
         line_buffer = io.StringIO()
-        for part in template_gen:
+        for part in _rejoin_split_crlf(template_gen):
             search_pos = 0  # type: int
             match_obj = newline_pattern.search(part, search_pos)
             while True:
@@ -1004,3 +1004,20 @@ class SupportGenerator(CodeGenerator):
                         resource_line_tuple = line_pp(resource_line_tuple)
                     target_file.write(resource_line_tuple[0])
                     target_file.write(resource_line_tuple[1])
+
+
+def _rejoin_split_crlf(chunks: typing.Iterable[str]) -> typing.Generator[str, None, None]:
+    """
+    Yields the given text chunks such that a CR at the end of one chunk is held back and prepended to the next one:
+    a CRLF line terminator is then never split across chunks (the concatenation of the chunks is unchanged).
+    """
+    carry = ""
+    for part in chunks:
+        part = carry + part
+        carry = ""
+        if part.endswith("\r"):
+            carry = "\r"
+            part = part[:-1]
+        yield part
+    if carry:
+        yield carry
